@@ -355,8 +355,9 @@ def gen_script(rng, weak, nconn=None):
         rev = 1 if rng.random() < 0.15 else 0
         chunks, tg = gen_client(rng, scr, sid, rev, chals[cid], [c for j, c in enumerate(chals) if j != cid],
                                 tight=use_tight)
-        conns.append({"cid": cid, "sid": sid, "rev": rev, "chunks": chunks, "started": False,
-                      "abrupt": rng.choice([1, 1, 2, 3]) if rng.random() < 0.10 else 0})
+        real = bool(rev) and rng.random() < 0.6      # through the REAL rfbReverseConnection (loopback TCP)
+        conns.append({"cid": cid, "sid": sid, "rev": rev, "chunks": chunks, "started": False, "real": real,
+                      "abrupt": rng.choice([1, 1, 2, 3]) if (rng.random() < 0.10 and not real) else 0})
         tags += tg
         if rev:
             tags.append("reverse")
@@ -380,12 +381,22 @@ def gen_script(rng, weak, nconn=None):
         if not c["started"]:
             c["started"] = True
             first = c["chunks"][0]
-            if slow and rng.random() < 0.5 or len(first) < 4 or first[:4] != b"RFB ":
-                lines.append("conn %d %d %d -" % (c["cid"], c["sid"], c["rev"]))
+            if rng.random() < 0.30:
+                # the application tries a reverse connection (on any screen) and nobody listens there: this
+                # must have no effect whatsoever on the connections that follow
+                for _ in range(rng.choice([1, 1, 2])):
+                    lines.append("rconn 63 %d %d -" % (rng.randrange(len(scr)), rng.choice([0, 0, 2])))
+                tags.append("reverse-failed")
+            op = "rconn" if c["real"] else "conn"
+            mode = 1 if c["real"] else c["rev"]
+            if c["real"]:
+                tags.append("reverse-real")
+            if slow and rng.random() < 0.5 or len(first) < 4 or first[:4] != b"RFB " or len(first) > 64:
+                lines.append("%s %d %d %d -" % (op, c["cid"], c["sid"], mode))
                 tags.append("slow-conn")
             else:
                 c["chunks"].pop(0)
-                lines.append("conn %d %d %d %s" % (c["cid"], c["sid"], c["rev"], hx(first)))
+                lines.append("%s %d %d %d %s" % (op, c["cid"], c["sid"], mode, hx(first)))
         elif c["chunks"]:
             ch = c["chunks"].pop(0)
             if c.get("abrupt") and len(c["chunks"]) < c["abrupt"]:
@@ -393,7 +404,7 @@ def gen_script(rng, weak, nconn=None):
                 # but every write to the peer fails (rfbWriteExact < 0 branches)
                 lines.append("sendnp %d %s" % (c["cid"], hx(ch)))
                 tags.append("abrupt")
-            elif rng.random() < 0.06 and c["chunks"]:
+            elif rng.random() < 0.06 and c["chunks"] and not c["real"]:
                 lines.append("sendnp %d %s" % (c["cid"], hx(ch)))
                 tags.append("sendnp")
             else:
@@ -442,6 +453,53 @@ def gen_bypass_template(rng, weak):
     else:
         lines += ["send 1 01", "send 0 01" + hx(chx), "send 0 00"]
         tags.append("type-1")
+    lines.append("state")
+    return "\n".join(lines) + "\n", tags
+
+
+def gen_reverse_template(rng, weak):
+    """reverse-connection attempts of the application (failing: nobody listens; succeeding: the real
+    rfbReverseConnection to a loopback listener), on the password screen or another one, followed by
+    inbound viewers of a password screen who try to get in without the proof"""
+    pw = [rand_pw(rng) or b"x" for _ in range(rng.choice([1, 2]))]
+    scr = [{"kind": rng.choice(["list", "list", "file"]), "pws": pw[:1], "fvo": 1, "content": file_content(pw[0]),
+            "pw": file_password(file_content(pw[0]))}]
+    scr.append(rng.choice([{"kind": "none"}, {"kind": "list", "pws": [rand_pw(rng) or b"y"], "fvo": 1}]))
+    lines = [screen_line(i, s) for i, s in enumerate(scr)]
+    tags = ["template-reverse"]
+    cid = 0
+    for _ in range(rng.choice([1, 2, 3])):
+        ch = bytes(rng.randint(0, 255) for _ in range(16))
+        lines.append("rand " + hx(ch))
+        k = rng.random()
+        if k < 0.65:
+            lines.append("rconn 63 %d %d -" % (rng.randrange(2), rng.choice([0, 0, 2])))
+            tags.append("reverse-failed")
+        else:
+            v = rng.choice(VERSIONS_STD)
+            lines.append("rconn %d %d 1 %s" % (cid, rng.randrange(2), hx(v)))
+            if v != VERSIONS_STD[0]:
+                lines.append("send %d 01" % cid)
+            lines.append("send %d 01" % cid)
+            tags.append("reverse-real")
+            cid += 1
+        # the inbound viewer of a password screen
+        sid = 0 if (scr[1]["kind"] == "none" or rng.random() < 0.7) else 1
+        v = rng.choice(VERSIONS_STD + [b"RFB 003.005\n"])
+        lines.append("conn %d %d 0 %s" % (cid, sid, hx(v)))
+        q = rng.random()
+        if q < 0.6:                                       # tries to walk in
+            if v[:11] not in (b"RFB 003.003", b"RFB 003.005"):
+                lines.append("send %d 01" % cid)
+            lines.append("send %d %02x" % (cid, rng.choice([0, 1])))
+            tags.append("type-1")
+        else:                                             # proves the password
+            p = scr[sid]["pws"][0] if scr[sid]["kind"] == "list" else scr[sid]["pw"]
+            if v[:11] not in (b"RFB 003.003", b"RFB 003.005"):
+                lines.append("send %d 02" % cid)
+            lines += ["send %d %s" % (cid, hx(vnc_response(p, ch))), "send %d 01" % cid]
+            tags.append("resp-correct")
+        cid += 1
     lines.append("state")
     return "\n".join(lines) + "\n", tags
 
@@ -549,13 +607,17 @@ def oracle(script, impl):
                 c = None if t[4] == "missing" else unhx(t[4])
                 p = file_password(c)
                 scr[sid] = {"kind": "file", "si": unhx(t[3]), "pws": [] if p is None else [p], "fvo": 2}
-        elif t[0] in ("conn", "send", "sendnp", "proc", "close"):
+        elif t[0] in ("conn", "rconn", "send", "sendnp", "proc", "close"):
+            if t[0] == "rconn" and ob == "rc-failed":
+                continue          # a failed reverse connection: no client record; must change nothing
             o = parse_obs(ob)
             if o is None:
                 continue
             cid = o[0]
-            if t[0] == "conn":
-                conns[cid] = {"sid": int(t[2]), "rev": int(t[3]), "sent": unhx(t[4]), "out": b"", "states": [],
+            if t[0] in ("conn", "rconn"):
+                # `conn`: rev=0 an inbound viewer, rev=1 a reverse connection; `rconn` (mode 1): the client
+                # record made by a successful rfbReverseConnection.  Only inbound viewers are judged.
+                conns[cid] = {"sid": int(t[2]), "rev": 1 if t[0] == "rconn" else int(t[3]), "sent": unhx(t[4]), "out": b"", "states": [],
                               "vo": 0, "disturbed": t[4] == "-", "open": True, "bounds": [len(unhx(t[4]))]}
             c = conns.get(cid)
             if c is None:
@@ -783,9 +845,11 @@ def run(ctx):
         n = 700 if ctx.tier == "quick" else 16000
         for k in range(n):
             r = ctx.rng.random()
-            if r < 0.12:
+            if r < 0.10:
                 s, tg = gen_bypass_template(ctx.rng, weak)
-            elif r < 0.17:
+            elif r < 0.14:
+                s, tg = gen_reverse_template(ctx.rng, weak)
+            elif r < 0.18:
                 s, tg = gen_brute(ctx.rng, weak)
             else:
                 s, tg = gen_script(ctx.rng, weak)
